@@ -24,6 +24,32 @@ pub struct UserEntry {
     password: String,
 }
 
+// Replaces #USER# and #PASS# in one pass over the template: what is inserted for one placeholder is data
+// and is never scanned for the other (a user name "#PASS#" must not turn into the password).
+fn substitute(template: &str, user: &str, pass: &str) -> String {
+    let mut out = String::with_capacity(template.len() + user.len() + pass.len());
+    let mut rest = template;
+    loop {
+        let (at, value) = match (rest.find("#USER#"), rest.find("#PASS#")) {
+            (None, None) => break,
+            (Some(u), None) => (u, user),
+            (None, Some(p)) => (p, pass),
+            (Some(u), Some(p)) => {
+                if u < p {
+                    (u, user)
+                } else {
+                    (p, pass)
+                }
+            }
+        };
+        out.push_str(&rest[..at]);
+        out.push_str(value);
+        rest = &rest[at + 6..];
+    }
+    out.push_str(rest);
+    out
+}
+
 impl AuthData {
     pub async fn init(&mut self) -> Result<(), Error> {
         self.cache.init().await
@@ -39,7 +65,7 @@ impl AuthData {
         let cmd = self
             .cmd
             .iter()
-            .map(|s| s.replace("#USER#", &user.0).replace("#PASS#", &user.1))
+            .map(|s| substitute(s, &user.0, &user.1))
             .collect::<Vec<_>>();
         trace!("auth_cmd: {:?}", cmd);
         let mut child = Command::new(&cmd[0]);
